@@ -175,9 +175,187 @@ crc_op(int argc, char **argv)
     }
     printf("%s ## %s", out, out);
 }
-#ifdef HAVE_BF_OPS
-static void bf_op(int argc, char **argv);
-#endif
+/* ---- endian codecs ---------------------------------------------------- */
+
+#include <ufw/binary-format.h>
+#define HAVE_BF_OPS
+
+/* X(kind letter, bits, C type, return-register width) */
+#define BF_WIDTHS_US(X, k, T16, T32, T64) \
+    X(k, 16, T16, 16) X(k, 24, T32, 32) X(k, 32, T32, 32) X(k, 40, T64, 64) \
+    X(k, 48, T64, 64) X(k, 56, T64, 64) X(k, 64, T64, 64)
+
+struct bf_ref_entry { const char *name; int nbytes; int rw; uint64_t (*call)(const void *); };
+struct bf_set_entry { const char *name; int nbytes; int pw; void *(*call)(void *, uint64_t); };
+
+#define REF_U(k, bits, T, W) \
+    static uint64_t r_##k##bits##n(const void *p) { return (uint64_t)bf_ref_##k##bits##n(p); } \
+    static uint64_t r_##k##bits##b(const void *p) { return (uint64_t)bf_ref_##k##bits##b(p); } \
+    static uint64_t r_##k##bits##l(const void *p) { return (uint64_t)bf_ref_##k##bits##l(p); }
+#define REF_S(k, bits, T, W) \
+    static uint64_t r_##k##bits##n(const void *p) { return (uint64_t)(uint##W##_t)bf_ref_##k##bits##n(p); } \
+    static uint64_t r_##k##bits##b(const void *p) { return (uint64_t)(uint##W##_t)bf_ref_##k##bits##b(p); } \
+    static uint64_t r_##k##bits##l(const void *p) { return (uint64_t)(uint##W##_t)bf_ref_##k##bits##l(p); }
+#define SET_US(k, bits, T, W) \
+    static void *s_##k##bits##n(void *p, uint64_t v) { return bf_set_##k##bits##n(p, (T)v); } \
+    static void *s_##k##bits##b(void *p, uint64_t v) { return bf_set_##k##bits##b(p, (T)v); } \
+    static void *s_##k##bits##l(void *p, uint64_t v) { return bf_set_##k##bits##l(p, (T)v); }
+BF_WIDTHS_US(REF_U, u, uint16_t, uint32_t, uint64_t)
+BF_WIDTHS_US(REF_S, s, int16_t, int32_t, int64_t)
+BF_WIDTHS_US(SET_US, u, uint16_t, uint32_t, uint64_t)
+BF_WIDTHS_US(SET_US, s, int16_t, int32_t, int64_t)
+/* floats travel as bit patterns (memcpy, no arithmetic) */
+#define REF_F(bits, T, U, o) \
+    static uint64_t r_f##bits##o(const void *p) { T f = bf_ref_f##bits##o(p); U u; memcpy(&u, &f, sizeof u); return u; }
+#define SET_F(bits, T, U, o) \
+    static void *s_f##bits##o(void *p, uint64_t v) { U u = (U)v; T f; memcpy(&f, &u, sizeof f); return bf_set_f##bits##o(p, f); }
+REF_F(32, float, uint32_t, n) REF_F(32, float, uint32_t, b) REF_F(32, float, uint32_t, l)
+REF_F(64, double, uint64_t, n) REF_F(64, double, uint64_t, b) REF_F(64, double, uint64_t, l)
+SET_F(32, float, uint32_t, n) SET_F(32, float, uint32_t, b) SET_F(32, float, uint32_t, l)
+SET_F(64, double, uint64_t, n) SET_F(64, double, uint64_t, b) SET_F(64, double, uint64_t, l)
+
+#define REF_ROW(k, bits, T, W) \
+    { "bf_ref_" #k #bits "n", bits / 8, W, r_##k##bits##n }, { "bf_ref_" #k #bits "b", bits / 8, W, r_##k##bits##b }, \
+    { "bf_ref_" #k #bits "l", bits / 8, W, r_##k##bits##l },
+#define SET_ROW(k, bits, T, W) \
+    { "bf_set_" #k #bits "n", bits / 8, W, s_##k##bits##n }, { "bf_set_" #k #bits "b", bits / 8, W, s_##k##bits##b }, \
+    { "bf_set_" #k #bits "l", bits / 8, W, s_##k##bits##l },
+static const struct bf_ref_entry bf_refs[] = {
+    BF_WIDTHS_US(REF_ROW, u, 0, 0, 0) BF_WIDTHS_US(REF_ROW, s, 0, 0, 0)
+    REF_ROW(f, 32, 0, 32) REF_ROW(f, 64, 0, 64)
+};
+static const struct bf_set_entry bf_sets[] = {
+    BF_WIDTHS_US(SET_ROW, u, 0, 0, 0) BF_WIDTHS_US(SET_ROW, s, 0, 0, 0)
+    SET_ROW(f, 32, 0, 32) SET_ROW(f, 64, 0, 64)
+};
+
+static void
+bf_op(int argc, char **argv)
+{
+    const char *op = argv[0];
+    char out[256];
+    if (strcmp(op, "bf.ref") == 0 && argc == 4) {
+        size_t n; unsigned char *octs = parse_hex(argv[2], &n);
+        size_t align = parse_u64(argv[3]);
+        if (!octs) { printf("bad-op"); return; }
+        for (size_t i = 0; i < sizeof bf_refs / sizeof *bf_refs; i++) {
+            if (strcmp(bf_refs[i].name, argv[1]) == 0 && (size_t)bf_refs[i].nbytes == n) {
+                unsigned char *blk = malloc(align + n);          /* exact size, value at offset align */
+                memcpy(blk + align, octs, n);
+                uint64_t v = bf_refs[i].call(blk + align);
+                snprintf(out, sizeof out, "%0*" PRIx64, bf_refs[i].rw / 4, v);
+                printf("%s ## %s", out, out);
+                free(blk); free(octs);
+                return;
+            }
+        }
+        free(octs);
+        printf("bad-op");
+    } else if (strcmp(op, "bf.set") == 0 && argc == 4) {
+        uint64_t v = strtoull(argv[2], NULL, 16);
+        size_t align = parse_u64(argv[3]);
+        for (size_t i = 0; i < sizeof bf_sets / sizeof *bf_sets; i++) {
+            if (strcmp(bf_sets[i].name, argv[1]) == 0) {
+                size_t n = (size_t)bf_sets[i].nbytes;
+                unsigned char *blk = malloc(align + n);
+                memset(blk, 0xee, align + n);
+                unsigned char *ret = bf_sets[i].call(blk + align, v);
+                bool pre = true;
+                for (size_t k = 0; k < align; k++) pre = pre && blk[k] == 0xee;
+                int len = snprintf(out, sizeof out, "ret=%td out=", ret - (blk + align));
+                for (size_t k = 0; k < n; k++) len += snprintf(out + len, sizeof out - len, "%02x", blk[align + k]);
+                snprintf(out + len, sizeof out - len, " pre=%s", pre ? "ok" : "bad");
+                printf("%s ## %s", out, out);
+                free(blk);
+                return;
+            }
+        }
+        printf("bad-op");
+    } else if (strcmp(op, "bf.sweep") == 0 && argc == 4) {
+        const char *nm = argv[1];
+        uint64_t lo = parse_u64(argv[2]), hi = parse_u64(argv[3]);
+        unsigned long long acc = 0;
+#define MIX(a, r) ((unsigned long long)(((unsigned __int128)(a) * 31 + (r) + 1) % 18446744073709551557ull))
+        bool found = false;
+        for (size_t i = 0; i < sizeof bf_refs / sizeof *bf_refs && !found; i++) {
+            if (strcmp(bf_refs[i].name, nm) == 0) {
+                size_t n = (size_t)bf_refs[i].nbytes;
+                unsigned char *blk = malloc(n);
+                for (uint64_t v = lo; v < hi; v++) {
+                    for (size_t k = 0; k < n; k++) blk[k] = (unsigned char)(v >> (8 * k));
+                    acc = MIX(acc, bf_refs[i].call(blk));
+                }
+                free(blk);
+                found = true;
+            }
+        }
+        for (size_t i = 0; i < sizeof bf_sets / sizeof *bf_sets && !found; i++) {
+            if (strcmp(bf_sets[i].name, nm) == 0) {
+                size_t n = (size_t)bf_sets[i].nbytes;
+                unsigned char *blk = malloc(n);
+                for (uint64_t v = lo; v < hi; v++) {
+                    bf_sets[i].call(blk, v);
+                    unsigned long long a = 0;
+                    for (size_t k = 0; k < n; k++) a = MIX(a, blk[k]);
+                    acc = MIX(acc, a);
+                }
+                free(blk);
+                found = true;
+            }
+        }
+        if (!found) {
+            for (uint64_t v = lo; v < hi; v++) {
+                uint64_t r;
+                if (strcmp(nm, "bf_swap16") == 0) r = bf_swap16((uint16_t)v);
+                else if (strcmp(nm, "bf_swap24") == 0) r = bf_swap24((uint32_t)v);
+                else if (strcmp(nm, "bf_swap32") == 0) r = bf_swap32((uint32_t)v);
+                else if (strcmp(nm, "bf_swap40") == 0) r = bf_swap40(v);
+                else if (strcmp(nm, "bf_swap48") == 0) r = bf_swap48(v);
+                else if (strcmp(nm, "bf_swap56") == 0) r = bf_swap56(v);
+                else if (strcmp(nm, "bf_swap64") == 0) r = bf_swap64(v);
+                else if (strcmp(nm, "bf_inrange_u24") == 0) r = bf_inrange_u24((uint32_t)v);
+                else if (strcmp(nm, "bf_inrange_s24") == 0) r = bf_inrange_s24((int32_t)(uint32_t)v);
+                else if (strcmp(nm, "bf_inrange_u40") == 0) r = bf_inrange_u40(v);
+                else if (strcmp(nm, "bf_inrange_s40") == 0) r = bf_inrange_s40((int64_t)v);
+                else if (strcmp(nm, "bf_inrange_u48") == 0) r = bf_inrange_u48(v);
+                else if (strcmp(nm, "bf_inrange_s48") == 0) r = bf_inrange_s48((int64_t)v);
+                else if (strcmp(nm, "bf_inrange_u56") == 0) r = bf_inrange_u56(v);
+                else if (strcmp(nm, "bf_inrange_s56") == 0) r = bf_inrange_s56((int64_t)v);
+                else { printf("bad-op"); return; }
+                acc = MIX(acc, r);
+            }
+        }
+        printf("%llu ## %llu", acc, acc);
+    } else if (strcmp(op, "bf.swap") == 0 && argc == 3) {
+        uint64_t v = strtoull(argv[2], NULL, 16), r; int w;
+        const char *nm = argv[1];
+        if (strcmp(nm, "bf_swap16") == 0) { r = bf_swap16((uint16_t)v); w = 16; }
+        else if (strcmp(nm, "bf_swap24") == 0) { r = bf_swap24((uint32_t)v); w = 32; }
+        else if (strcmp(nm, "bf_swap32") == 0) { r = bf_swap32((uint32_t)v); w = 32; }
+        else if (strcmp(nm, "bf_swap40") == 0) { r = bf_swap40(v); w = 64; }
+        else if (strcmp(nm, "bf_swap48") == 0) { r = bf_swap48(v); w = 64; }
+        else if (strcmp(nm, "bf_swap56") == 0) { r = bf_swap56(v); w = 64; }
+        else if (strcmp(nm, "bf_swap64") == 0) { r = bf_swap64(v); w = 64; }
+        else { printf("bad-op"); return; }
+        snprintf(out, sizeof out, "%0*" PRIx64, w / 4, r);
+        printf("%s ## %s", out, out);
+    } else if (strcmp(op, "bf.inrange") == 0 && argc == 3) {
+        uint64_t v = strtoull(argv[2], NULL, 16); bool r;
+        const char *nm = argv[1];
+        if (strcmp(nm, "bf_inrange_u24") == 0) r = bf_inrange_u24((uint32_t)v);
+        else if (strcmp(nm, "bf_inrange_s24") == 0) r = bf_inrange_s24((int32_t)(uint32_t)v);
+        else if (strcmp(nm, "bf_inrange_u40") == 0) r = bf_inrange_u40(v);
+        else if (strcmp(nm, "bf_inrange_s40") == 0) r = bf_inrange_s40((int64_t)v);
+        else if (strcmp(nm, "bf_inrange_u48") == 0) r = bf_inrange_u48(v);
+        else if (strcmp(nm, "bf_inrange_s48") == 0) r = bf_inrange_s48((int64_t)v);
+        else if (strcmp(nm, "bf_inrange_u56") == 0) r = bf_inrange_u56(v);
+        else if (strcmp(nm, "bf_inrange_s56") == 0) r = bf_inrange_s56((int64_t)v);
+        else { printf("bad-op"); return; }
+        printf("%s ## %s", r ? "true" : "false", r ? "true" : "false");
+    } else {
+        printf("bad-op");
+    }
+}
 
 static void
 harness_reset(void)
